@@ -14,6 +14,9 @@ LAOStarEventListener (harness/impl/c03_impl.py) ->
      boundary values folded in exactly as laostar.py:308-358 does; nothing else changes; Z closed under
      parents through current best actions), the heuristic is admissible, the final result is the last
      snapshot.
+Input families: random (dense / sparse / corridor + tweaks), neartie, ladder (dependent near-ties: several chained
+policy-improvement steps inside ONE revision), large, longchain; declared-absorbing states with their own action sets
+and outgoing rows; representations incl. from_matrices and is_absorbing returning 0/1 integers (docs/C03.md section 4).
 When a clause fails the harness evaluates the property's clauses itself with exact rationals
 (policy reachability, exact policy evaluation, exact optimum) to exhibit a concrete failing clause.
 """
@@ -366,13 +369,21 @@ def gen_rep(rng, multi):
         "alabels": rng.choice(["int", "int", "str", "falsy:" + rng.choice(fz)]),
         "dist": rng.choice(["dict", "mixed"]),
         "actions_as": rng.choice(["tuple", "list"]),
-        "cls": rng.choice(["tabular", "tabular", "quick"]),
+        # from_matrices = the public array constructor TabularMarkovDecisionProcess.from_matrices (seeded C03-17)
+        "cls": rng.choice(["tabular", "tabular", "quick", "from_matrices"]),
+        "matrices_int": rng.random() < .5,     # from_matrices: integer-typed action / reward arrays where integral
+        # what is_absorbing RETURNS: bool, or a truthy / falsy 0/1 number - an integer indicator vector handed to
+        # from_matrices (its is_absorbing returns the raw np.int64 entry), a wrapper class returning int (C03-17)
+        "absorbing_as": rng.choice(["bool", "bool", "int", "np.int64", "np.bool_"]),
         "init_as": rng.choice(["dist", "state"]),
         "gamma_int": rng.random() < .5,
         # form of the heuristic argument (impl: make_heuristic); the numeric forms apply to constant bounds.
         # np.float32 only with C03_FLOAT32=1 (float32 arithmetic loses precision on the unchanged msdm, reported)
+        # NOT np.bool_: NumPy defines no arithmetic negation / subtraction for its boolean scalar (`-np.True_` raises
+        # TypeError), so it is not a number type a real-valued heuristic can have - a rewrite that is harmless for every
+        # numeric type (benign C03-3 sorts tips by `-value`) raises with it.  Python bool is an int and stays.
         "h_as": rng.choice(["callable", "partial", "callable_object", "bound_method", "float", "int", "bool", "Fraction",
-                            "np.int64", "np.int64", "np.int32", "np.bool_", "np.float64", "array0d"]
+                            "np.int64", "np.int64", "np.int32", "np.float64", "np.float64", "array0d"]
                            + (["np.float32"] if os.environ.get("C03_FLOAT32") else [])
                            # unsigned scalars: with integer-typed rewards/discount NumPy 2 keeps uint8 and overflows (reported)
                            + (["np.uint8"] if os.environ.get("C03_UINT8") else [])),
@@ -437,6 +448,105 @@ def gen_neartie(rng):
     return {"n": n, "nA": nA, "actions": actions, "trans": trans, "reward": reward, "absorbing": absorbing,
             "init": init, "gamma": rng.choice(["1", "1", "1023/1024", "4095/4096", "1048575/1048576"]),
             "big": big}
+
+
+def gen_ladder(rng):
+    """DEPENDENT near-ties (seeded C03-16): levels L_0 .. L_{d-1} above a bottom state Y.  Every level chooses between
+    `down` (to the next level, reward 0) and `out` (value o_i, paid on the way to the goal, directly or through a
+    one-action side state); Y has a good (W) and a clearly bad action.  o_i = V*(L_i) * (1 -+ delta_i) with
+    delta_0 < delta_1 < ... : `down` is optimal everywhere, but L_i only sees that AFTER L_{i+1} has switched to
+    `down` (gamma * o_{i+1} is worse than o_i).  So a policy-improvement loop started anywhere but at the optimum needs
+    d successive improvement steps, each changing the values by a RELATIVE amount delta_i (1e-6 .. 8e-6 in 60 %,
+    6e-8 .. 5e-7 in 20 %, 1.5e-5 .. 1.2e-4 in 20 %) of values of magnitude 1 .. 5e6; stopping one step early loses
+    delta_0 * |V| >= 1e-7 * |V| at the initial state.  All numbers dyadic except gamma = 99/100."""
+    d = rng.choice([2, 2, 3, 3, 4])
+    nA = rng.choice([2, 2, 3])
+    gamma = rng.choice(["1", "127/128", "63/64", "31/32", "99/100"])
+    g = F(gamma)
+    sign = 1 if (g < 1 and rng.random() < .5) else -1
+    W = F(rng.choice([1, 3, 5]) * 2 ** rng.choice([0, 3, 6, 7, 10, 20]))
+    u = rng.random()
+    unit = F(1, 2**21) if u < .6 else F(1, 2**25) if u < .8 else F(1, 2**17)
+    delta = [k * unit for k in sorted(rng.sample(range(2, 17), d))]
+    via_sink = rng.random() < .5
+    Y = d
+    sinks = list(range(d + 1, 2 * d + 1)) if via_sink else []
+    G = d + 1 + len(sinks)
+    n = G + 1
+    v = [sign * W * g ** (d - i) for i in range(d)] + [sign * W]
+    actions, trans, reward = [None] * n, {}, {}
+
+    def put(s, a, ns, r):
+        trans["%d,%d" % (s, a)] = [[ns, "1"]]
+        if r != 0:
+            reward["%d,%d,%d" % (s, a, ns)] = str(r)
+    for i in range(d):
+        ids = rng.sample(range(nA), nA)
+        roles = ["down", "out"] + (["worse"] if nA == 3 and rng.random() < .5 else [])
+        acts = ids[:len(roles)]
+        actions[i] = sorted(acts)
+        o = v[i] * (1 - sign * delta[i])
+        for role, a in zip(roles, acts):
+            if role == "down":
+                put(i, a, i + 1, F(0))
+            elif role == "worse":
+                put(i, a, G, o - abs(o) / 4)
+            elif via_sink:
+                x = o * F(rng.randint(1, 3), 4)
+                put(i, a, sinks[i], o - g * x)
+                put(sinks[i], 0, G, x)
+                actions[sinks[i]] = [0]
+            else:
+                put(i, a, G, o)
+    ids = rng.sample(range(nA), 2)
+    actions[Y] = sorted(ids)
+    put(Y, ids[0], G, sign * W)
+    put(Y, ids[1], G, sign * W / 2 if sign > 0 else sign * W * 2)
+    actions[G] = [0]
+    trans["%d,0" % G] = [[G, "1"]]
+    absorbing = [False] * n
+    absorbing[G] = True
+    init = [[0, "1"]] if d == 2 or rng.random() < .6 else [[0, "3/4"], [1, "1/4"]]
+    return {"n": n, "nA": nA, "actions": actions, "trans": trans, "reward": reward, "absorbing": absorbing,
+            "init": init, "gamma": gamma, "depth": d}
+
+
+def free_absorbing(rng, m):
+    """declared-absorbing states that are not dead ends of the GRAPH (seeded C03-18): an episodic task whose terminal
+    state still offers e.g. a `reset` action back to the start.  Each declared-absorbing state gets (75 %) its OWN
+    action set - a random subset of the action ids, or (40 %) one brand-new id no other state has - and rows that lead
+    to arbitrary states (60 %: into the initial support), with arbitrary rewards.  The planner must ignore all of it
+    (value 0, episode over): rows of absorbing states are masked in the model, so optimum and properness do not change;
+    but LAO* expands such a node like any other, so it becomes a PARENT - and, through its stored best action, an
+    ancestor - of states expanded later."""
+    n = m["n"]
+    starts = [s for s, p in m["init"] if F(p) > 0]
+    changed = []
+    for s in range(n):
+        if not m["absorbing"][s] or rng.random() < .25:
+            continue
+        for a in m["actions"][s]:
+            for ns, p in m["trans"].pop("%d,%d" % (s, a)):
+                m["reward"].pop("%d,%d,%d" % (s, a, ns), None)
+        if rng.random() < .4:
+            acts = [m["nA"]]
+            m["nA"] += 1
+        else:
+            acts = sorted(rng.sample(range(m["nA"]), rng.randint(1, min(2, m["nA"]))))
+        m["actions"][s] = acts
+        for a in acts:
+            k = rng.choice([1, 1, 2]) if n > 1 else 1
+            pool = starts if rng.random() < .6 else list(range(n))
+            succ = [rng.choice(pool)]
+            if k == 2:
+                succ.append(rng.choice([x for x in range(n) if x != succ[0]]))
+            ps = gen_mdp._split_prob(rng, len(succ), denom=4)
+            m["trans"]["%d,%d" % (s, a)] = [[ns, str(p)] for ns, p in zip(succ, ps)]
+            for ns in succ:
+                if rng.random() < .4:
+                    m["reward"]["%d,%d,%d" % (s, a, ns)] = str(F(-rng.randint(1, 8), 2))
+        changed.append(s)
+    return changed
 
 
 def gen_large(rng, K):
@@ -521,6 +631,15 @@ def heuristic_for(rng, kind, Vmax, treasure):
     return [list(up(x).as_integer_ratio()) for x in h]
 
 
+def int32_safe(plans):
+    """every reward, optimal value, heuristic value AND every partial sum |reward| + |value| msdm can form from them
+    fits comfortably (factor 2) in a signed 32-bit integer, for every problem of the case"""
+    rmax = max([F(0)] + [abs(F(r)) for pl in plans for r in pl["mdp"]["reward"].values()])
+    vmax = max([F(0)] + [abs(F(int(x[0]), int(x[1]))) for pl in plans for x in pl["h"]]
+               + [abs(F(v)) for pl in plans for v in pl["vstar"]])
+    return rmax + vmax < 2**30
+
+
 def gen_random_mdp(rng, tier, tweak):
     nmax = 7 if tier == "quick" else 10
     gamma = "1" if rng.random() < .3 else None
@@ -534,9 +653,13 @@ def gen_random_mdp(rng, tier, tweak):
     else:
         shape = "dense"
         nm = 1 if rng.random() < .08 else nmax          # a few single-state MDPs in every run
+        # 30 %: rows of declared-absorbing states drawn like any other row (gen_mdp absorbing_out="free") instead of self-loops
         m = gen_mdp.gen_mdp(rng, nmax=nm, amax=3, gamma=gamma,
-                            proper=(gamma == "1"), min_states=min(nm, rng.choice([1, 2, 3, 4])))
+                            proper=(gamma == "1"), min_states=min(nm, rng.choice([1, 2, 3, 4])),
+                            absorbing_out="free" if rng.random() < .3 else "self")
     nonpos = F(m["gamma"]) == 1 or shape != "dense" or not any(F(r) > 0 for r in m["reward"].values())
+    if rng.random() < .35:
+        tweak["free_absorbing"] = free_absorbing(rng, m)
     u = rng.random()
     if F(m["gamma"]) == 1 and rng.random() < .3:
         tweak["slow_exit"] = add_slow_exit(rng, m)
@@ -564,6 +687,13 @@ def gen_case(rng, tier, family=None):
         plans = [gen_neartie(rng)]
         if plans[0].pop("big"):
             tweak["big_magnitude"] = True
+        if rng.random() < .4:
+            tweak["free_absorbing"] = free_absorbing(rng, plans[0])
+    elif family == "ladder":
+        plans = [gen_ladder(rng)]
+        tweak["ladder_depth"] = plans[0].pop("depth")
+        if rng.random() < .4:
+            tweak["free_absorbing"] = free_absorbing(rng, plans[0])
     elif family == "large":
         plans = [gen_large(rng, rng.randint(1040, 1120))]
     elif family == "longchain":
@@ -587,7 +717,7 @@ def gen_case(rng, tier, family=None):
     Vall = [vstar_of(m, fam) for m in plans]
     n = plans[0]["n"]
     Vmax = [max(V[s] for V in Vall) for s in range(n)]
-    kind = rng.choice(["const", "exact", "slack"] + (["exact", "slack"] if shape in ("sparse", "neartie", "chain") else []))
+    kind = rng.choice(["const", "exact", "slack"] + (["exact", "slack"] if shape in ("sparse", "neartie", "chain", "ladder") else []))
     rep = gen_rep(rng, len(plans) + 2 * len(other) > 1) if family not in ("large", "longchain") else {}
     if rep.get("h_as") not in (None, "callable", "partial", "callable_object", "bound_method") and not other and rng.random() < .6:
         kind = "const"      # a numeric (non-callable) heuristic only exists for constant bounds
@@ -598,6 +728,13 @@ def gen_case(rng, tier, family=None):
         V2 = vstar_of(m2, fam)
         out.append({"mdp": m2, "vstar": [str(v) for v in V2], "h": heuristic_for(rng, kind, V2, False), "other_problem": True})
         out.append(dict(out[0]))
+    if rep.get("h_as") == "np.int32" and not int32_safe(out):
+        # a heuristic TYPED int32 cannot coexist with numbers outside the int32 range: the node value of an
+        # unrevised node is the caller's np.int32 itself and msdm's `reward + gamma*value` (laostar.py:350) is then
+        # NumPy's own int32 arithmetic (NumPy 2: OverflowError for a Python-int reward that does not fit, silent
+        # wrap-around for a sum that does not) - a property of the caller's number type, not of LAO*.  Such a
+        # combination of representations is outside the quantifier; the wide integer type is used instead.
+        rep["h_as"] = "np.int64"
     single = len(out) == 1
     return {"family": family, "shape": shape, "plans": out, "h": h, "hkind": kind,
             "seed": rng.randrange(4), "rao": rng.random() < .5, "rno": rng.random() < .5,
@@ -877,7 +1014,9 @@ def terms_for(case, res):
     t_run = "runchk %s %s %s %s %s %s" % (mt, lao, qlist(Vs), q(rho), qlist(hq), coqlist(steps))
     # mirror of update_ancestors_of, one term per iteration: graph as it is after expand_at(x), before the revision
     m = case["mdp"]
-    listed = lambda s, a: [ns for ns, p in m["trans"]["%d,%d" % (s, a)]]
+    # from_matrices builds its distributions from the positive entries only: zero-probability entries are not listed
+    drop0 = (case.get("rep") or {}).get("cls") == "from_matrices"
+    listed = lambda s, a: [ns for ns, p in m["trans"]["%d,%d" % (s, a)] if not (drop0 and F(p) == 0)]
     anc_terms = []
     prev = {}
     for st in res["trace"]:
@@ -895,7 +1034,20 @@ def terms_for(case, res):
                                                    coqlist(natlist(r) for r in succ), nat(x), blist(Z)))
         prev = nodes
     t_anc = coqlist(anc_terms)
-    info = {"nC": len(C), "nExplored": sum(ex), "n": n, "steps": len(steps),
+    # observation counters: revisions in which a DECLARED-ABSORBING state other than the expanded one is revised
+    # (it is an ancestor: C03-18) and its action set differs from the expanded state's; revisions after which two
+    # or more previously expanded states play another best action (chained improvements: C03-16)
+    abs_anc = abs_anc_other = multi_switch = 0
+    prev = {}
+    for st in res["trace"]:
+        nodes = {x[0]: x for x in st["nodes"]}
+        xs = st["expand"]
+        za = [s for s in st["Z"] if m["absorbing"][s] and s not in xs]
+        abs_anc += bool(za)
+        abs_anc_other += any(m["actions"][s] != m["actions"][x] for s in za for x in xs)
+        multi_switch += sum(1 for s, nd in prev.items() if nd[3] and s in nodes and nodes[s][2] != nd[2]) >= 2
+        prev = nodes
+    info = {"abs_anc": abs_anc, "abs_anc_other": abs_anc_other, "multi_switch": multi_switch,"nC": len(C), "nExplored": sum(ex), "n": n, "steps": len(steps),
             "undiscounted": g == 1, "t_pchk": t_pchk,
             "pruned": sum(ex) < len(gen_mdp.reachable(case["mdp"])),
             "sol_eq_C": set(res["solution_states"]) == C}
@@ -905,11 +1057,13 @@ def terms_for(case, res):
 def run(ctx):
     tier = ctx.tier
     nrand, ntie, nlarge = (56, 14, 1) if tier == "quick" else (600, 140, 3)
+    nladder = 8 if tier == "quick" else 80
     if ctx.replay_case:
         cases = [ctx.replay_case["detail"]["case"]]
     else:
         cases = ([gen_case(ctx.rng, tier) for _ in range(nrand)] +
                  [gen_case(ctx.rng, tier, "neartie") for _ in range(ntie)] +
+                 [gen_case(ctx.rng, tier, "ladder") for _ in range(nladder)] +
                  [gen_case(ctx.rng, tier, "large") for _ in range(nlarge)] +
                  [gen_case(ctx.rng, tier, "longchain") for _ in range(nlarge)])
     small = [i for i, c in enumerate(cases) if c.get("family") not in ("large", "longchain")]
@@ -980,7 +1134,7 @@ def run(ctx):
             f["planner_object_reused"] = k > 0
             rp = case.get("rep", {})
             f["heuristic_form_" + str(rk.get("h_type"))] = True
-            for key in ("labels", "alabels", "dist", "actions_as", "cls", "init_as"):
+            for key in ("labels", "alabels", "dist", "actions_as", "cls", "init_as", "absorbing_as"):
                 f["rep_%s_%s" % (key, rp.get(key))] = True
             f["rep_gamma_int_1"] = bool(rp.get("gamma_int")) and F(cv["mdp"]["gamma"]) == 1
             f["rep_mdp_object_reused"] = bool(rp.get("mdp_reuse")) and k == 2
@@ -1004,6 +1158,17 @@ def run(ctx):
             f["rep_shared_list_and_distribution_objects"] = bool(rp.get("share"))
             f["rep_int_typed_numbers"] = bool(rp.get("int_numbers"))
             f["rep_float32_rewards"] = bool(rp.get("float32_rewards"))
+            f["rep_from_matrices_integer_arrays"] = rp.get("cls") == "from_matrices" and bool(rp.get("matrices_int"))
+            f["rep_is_absorbing_returns_0_1_integer"] = (rp.get("absorbing_as") in ("int", "np.int64")
+                                                       and any(cv["mdp"]["absorbing"]))
+            f["tweak_declared_absorbing_state_with_outgoing_rows"] = any(
+                cv["mdp"]["absorbing"][s] and any(ns != s for a in cv["mdp"]["actions"][s]
+                                                   for ns, p in cv["mdp"]["trans"]["%d,%d" % (s, a)] if F(p) > 0)
+                for s in range(cv["mdp"]["n"]))
+            f["ladder_dependent_near_ties"] = case.get("family") == "ladder"
+            f["revision_with_absorbing_ancestor"] = info["abs_anc"] > 0
+            f["revision_with_absorbing_ancestor_of_other_action_set"] = info["abs_anc_other"] > 0
+            f["revision_switching_two_or_more_best_actions"] = info["multi_switch"] > 0
             f["one_action_id"] = cv["mdp"]["nA"] == 1
             f["nS_equals_nA"] = cv["mdp"]["n"] == cv["mdp"]["nA"]
             f["shape_chain_path_length_n-1"] = case.get("shape") == "chain"
@@ -1101,6 +1266,8 @@ def run(ctx):
                  "family random: MDPs from harness/gen_mdp.py (1..%d states, 1..3 actions, state-dependent action sets, k/8 probabilities, zero entries, duplicate rows, explicit/implicit absorbing states incl. absorbing initial states, multi-state initial distributions; gamma in {1/2,3/4,7/8,9/10,19/20}, or gamma = 1 proper) or gen_sparse (6..%d states, forward-moving, side chains); in 40%% of them the same object then plans on a perturbed MDP with the same labels (re-drawn probabilities/rewards) and possibly on the first one again. "
                  "family neartie: chains of states with two actions of identical transitions (self-loop 1 - 2^-10), per-step reward gap 2^-22..2^-21, both id orders, gamma in {1, 1-2^-10, 1-2^-12}. "
                  "random-family tweaks (one per case at most): rare branches 2^-27..2^-60 with rewards ~1/p / treasure states / tiny initial entries; slow-exit state whose only route to termination has probability 2^-27..2^-32 (gamma = 1); non-dyadic thirds / tenths / sevenths incl. a row of ten 0.1s; extreme 1-2^-k rows; rewards x1e3 / x1e5; corridors of 3..13 states; reuse of the planner on an unrelated problem of another size and then on the first again. "
+                 "family ladder: d = 2..4 levels of DEPENDENT near-ties (level i only prefers `down` after level i+1 switched), relative gaps 6e-8..1.2e-4 at magnitudes 1..5e6, gamma in {1, 127/128, 63/64, 31/32, 99/100}. "
+                 "declared-absorbing states with their OWN action set and outgoing (ignored) rows back into the graph (free_absorbing / gen_mdp absorbing_out=free); is_absorbing returning bool / int / np.int64 / np.bool_; TabularMarkovDecisionProcess.from_matrices with boolean or integer arrays. "
                  "family longchain: acyclic corridor of 301..377 states planned with default arguments (Python-judged like large). "
                  "family large: ~1100-way stochastic dispatch planned with DEFAULT constructor arguments (iteration budget), judged in Python only (convergence flag, exact backward-induction optimum, exact policy return, closure/consistency) because the Coq certificate is too slow at that size. "
                  "heuristic in {constant upper bound, exact optimum rounded up to a double, optimum + per-state slack} (admissible for every MDP of the case); distinct = structural hash of (MDP, heuristic, seed, flags, position in the plan list); non-trivial = explicit graph with more than one node" % ((7, 13) if tier == "quick" else (10, 16))),
@@ -1113,6 +1280,10 @@ def run(ctx):
         "plans": nplans, "plans_on_reused_planner_object": nreuse,
         "budget_one_short_honestly_unconverged": nshort,
         "neartie_cases": sum(1 for c in cases if c.get("family") == "neartie"),
+        "ladder_cases": sum(1 for c in cases if c.get("family") == "ladder"),
+        "revisions_with_absorbing_ancestor": sum(x["abs_anc"] for x in infos),
+        "revisions_with_absorbing_ancestor_of_other_action_set": sum(x["abs_anc_other"] for x in infos),
+        "revisions_switching_two_or_more_best_actions": sum(x["multi_switch"] for x in infos),
         "large_python_only": large_info,
         "cases_with_unexplored_reachable_states": sum(1 for x in infos if x["pruned"]),
         "cases_C_smaller_than_explored": sum(1 for x in infos if x["nC"] < x["nExplored"]),
